@@ -188,7 +188,7 @@ func driveObs(args []string) int {
 		}
 		// the structure of the all-on run goes to TLC together with the real dump
 		p, perr := bcl.Parse(src, "input", bcl.OptLogger(&bytes.Buffer{}), bcl.OptOutput(&bytes.Buffer{}))
-		hdr := map[string]any{"e": "reset", "accepted": perr == nil, "dump": []int{}, "src": string(src), "err": vmErrClassS(base.Err)}
+		hdr := map[string]any{"e": "reset", "accepted": perr == nil, "dump": []int{}, "src": string(src), "srcb": intsOf(src), "err": vmErrClassS(base.Err)}
 		if perr == nil {
 			var d bytes.Buffer
 			if p.Dump(&d) != nil || (d.Len() > 2500 && c.Shape == "") || d.Len() > 12000 {
